@@ -75,6 +75,22 @@ def core_corpus(rng):
     specs.append({"kind": "enum", "derived": full, "entry": "attr", "generic": False, "variants": [
         {"style": "unit", "fields": []}, {"style": "tuple", "fields": [dict(plain)]},
         {"style": "named", "fields": [dict(plain), dict(plain)]}, {"style": "unit", "fields": []}]})
+    # how the user wrote it must not matter: explicit decreasing discriminants, the trait list split over two attributes
+    # (a field helper that belongs to the second list only), Debug co-derived with #[debug(ignore)] on compared fields
+    rev, keysel = field("V", ("reverse", "-", "-", "-", "-"))
+    ok_, keysel = field("V", ("key", "-", "-", "-", "-"))
+    pk, keysel = field("V", ("-", "key", "-", "-", "-"))
+    for entry in ("attr", "derive"):
+        specs.append({"kind": "enum", "derived": full, "entry": entry, "generic": False, "disc": True, "variants": [
+            {"style": "unit", "fields": []}, {"style": "tuple", "fields": [dict(plain)]},
+            {"style": "named", "fields": [dict(plain), dict(rev)]}, {"style": "unit", "fields": []}]})
+        for split in (1, 2, 3):
+            specs.append({"kind": "struct", "derived": full, "entry": entry, "generic": False, "split": split,
+                          "variants": [{"style": "named", "fields": [dict(plain), dict(rev), dict(ok_)]}]})
+            specs.append({"kind": "enum", "derived": ["PartialOrd", "PartialEq"], "entry": entry, "generic": False, "split": split, "codebug": "first",
+                          "variants": [{"style": "tuple", "fields": [dict(pk, dbg_ignore=True), dict(plain)]}, {"style": "unit", "fields": []}]})
+        specs.append({"kind": "struct", "derived": full, "entry": entry, "generic": False, "codebug": "last",
+                      "variants": [{"style": "tuple", "fields": [dict(plain, dbg_ignore=True), dict(rev), dict(plain, dbg_ignore=True)]}]})
     # twelve fields: the lexicographic order follows the declaration order, not the text order of names / indices (f10 < f2)
     for style in ("tuple", "named"):
         for kind in ("struct", "enum"):
